@@ -205,7 +205,18 @@ macro_rules! battery {
                             "X-1Y,J100,J366", "X-1Y,M3.1.0,M13.1.0", "X-1Y,M2.5.1/-3,M6.5.6/24:30:30",
                             "IST-5:30", "ACST-9:30ACDT,M10.1.0,M4.1.0/3", "<+1245>-12:45<+1345>-13:45,M9.5.0/2:45,M4.1.0/3:45", "NST3:30NDT,M3.2.0,M11.1.0",
                             "<-0330>+3:30:15", "AAA-0:00:01", "WET0WEST-1:15,M3.5.0/1,M10.5.0", "XYZ+1:02:03ABC-0:30,100/1:15,J200/23:59:59"];
-                        let footer = FOOT[((a / 180).rem_euclid(24)) as usize];
+                        // two in three footers are generated: every month, week 1..=5, weekday, and J / n days, with and without a time
+                        let gen_footer: String = {
+                            let (m1, w1, d1) = (1 + cc.rem_euclid(12), 1 + (cc / 12).rem_euclid(5), (cc / 60).rem_euclid(7));
+                            let (m2, w2, d2) = (1 + e.rem_euclid(12), 1 + (e / 12).rem_euclid(5), (e / 60).rem_euclid(7));
+                            match (e / 420).rem_euclid(4) {
+                                0 => format!("AAA-1BBB,M{}.{}.{},M{}.{}.{}", m1, w1, d1, m2, w2, d2),
+                                1 => format!("AAA5BBB,M{}.{}.{}/{},M{}.{}.{}/{}:30", m1, w1, d1, d.rem_euclid(25), m2, w2, d2, (d / 25).rem_euclid(24)),
+                                2 => format!("AAA-3BBB,J{},J{}/{}", 1 + cc.rem_euclid(365), 1 + e.rem_euclid(365), d.rem_euclid(25)),
+                                _ => format!("AAA8BBB,{},{}", cc.rem_euclid(365), e.rem_euclid(365)),
+                            }
+                        };
+                        let footer: &str = if (a / 180).rem_euclid(3) == 0 { FOOT[((a / 540).rem_euclid(24)) as usize] } else { &gen_footer };
                         let block = |v8: bool| -> Vec<u8> {
                             let mut o = Vec::new();
                             o.extend_from_slice(b"TZif");
@@ -326,7 +337,7 @@ fn gen(prop: &str, r: &mut Rng) -> Case {
         "C09" | "C10" | "C15" => Case { a: day(r).clamp(-2_147_000_000, 2_147_000_000), b: nano(r), c: r.pick(&OFFS), d: if r.next() % 2 == 0 { small(r, 70) } else { r.pick(&[0, 1, 12, 13, 23, 24, 28, 29, 30, 31, 32, 59, 60, 255, 256, 365, 366, 367, 999, 1000, 999_999, 1_000_000, 999_999_999, 1_000_000_000, 2024, 2023, -5, -4, 5_879_611, -5_879_611, 4_294_967_295, 2_147_483_648, -2_147_483_648]) }, e: r.next() as i64 & 0xffff, f: if r.next() % 2 == 0 { r.pick(&OFFS) } else { r.pick(&[86_400, -86_400, 90_000, -2_147_483_648, 2_147_483_647, 23, -23, 24, 25]) } },
         "C11" => Case { a: day(r).clamp(-2_000_000_000, 2_000_000_000), b: nano(r), c: r.pick(&OFFS), d: r.next() as i64 & 0xffff, e: 0, f: 0 },
         "C17" => Case { a: small(r, 7776), b: if r.next() % 2 == 0 { 738_000 + small(r, 3000) } else { r.pick(&[738_214, 738_215, 738_273, 738_274, 738_303, 738_304, 738_579, 738_580, 739_309, 739_310, 738_156]) }, c: if r.next() % 2 == 0 { small(r, 86_400) } else { r.pick(&[0, 1, 59, 60, 3599, 3600, 86_340, 86_399, 43_200]) }, d: small(r, 4_000_000), e: r.pick(&[0, 1, 59, 60, 61, 3600, 86_400, 2_678_400]), f: small(r, 4) },
-        "C18" | "C19" => Case { a: small(r, 23_040), b: if r.next() % 2 == 0 { small(r, 2_000_000_000) - 300_000_000 } else { r.pick(&[0, 1_000_000, 1_616_893_200, 1_635_037_200, 1_709_082_000]) }, c: small(r, 40_000_000), d: small(r, 256), e: r.next() as i64 & 0xff_ffff, f: small(r, 1_000_000) },
+        "C18" | "C19" => Case { a: small(r, 46_080), b: if r.next() % 2 == 0 { small(r, 2_000_000_000) - 300_000_000 } else { r.pick(&[0, 1_000_000, 1_616_893_200, 1_635_037_200, 1_709_082_000]) }, c: small(r, 40_000_000), d: small(r, 256), e: r.next() as i64 & 0xff_ffff, f: small(r, 1_000_000) },
         _ => Case { a: 0, b: 0, c: 0, d: 0, e: 0, f: 0 },
     }
 }
